@@ -62,7 +62,9 @@ func VerifC10Consistency() {
 		bad = k == 1
 	case 3: // named volume reference
 		k := vrtChoice("vol", 3)
-		a["volumes"] = []any{[]string{"vol:/t", "zzz:/t", "/abs:/t"}[k]}
+		// the options of a short-syntax mount do not change what its source refers to
+		opt := []string{"", ":ro", ":z", ":rshared", ":nocopy"}[vrtChoice("volOption", 5)]
+		a["volumes"] = []any{[]string{"vol:/t", "zzz:/t", "/abs:/t"}[k] + opt}
 		bad = k == 1
 	case 4: // secret / config / build secret reference
 		kind := vrtChoice("kind", 3)
